@@ -48,6 +48,11 @@ func c18Replay(c json.RawMessage) Verdict {
 	if e1 != "" || e2 != "" {
 		return bad("operands: %s %s", e1, e2)
 	}
+	// the second operand lists its amino acids and codons in another order (a table from another tool, a shuffled
+	// JSON): a table is a set of weighted codons, not a layout
+	if cs.Id%2 == 0 || cs.Cut%3 == 0 {
+		tb = shuffleTable(tb, int64(cs.Id*131+cs.Cut))
+	}
 	sum := codon.AddCodonTable(ta, tb)
 	ws, _, perr := projectTable(sum)
 	if perr != "" || !matches(ws, cs.Add, 0) {
@@ -114,6 +119,21 @@ func c18Hair(ta, tb codon.Table, cut float64, wantErr bool, nom sparse) string {
 	return ""
 }
 
+// shuffleTable: a deep copy of t with the amino acids and, inside each, the codons in another order
+func shuffleTable(t codon.Table, seed int64) codon.Table {
+	rng := rand.New(rand.NewSource(seed))
+	out := codon.Table{StartCodons: append([]string(nil), t.StartCodons...), StopCodons: append([]string(nil), t.StopCodons...)}
+	for _, i := range rng.Perm(len(t.AminoAcids)) {
+		aa := t.AminoAcids[i]
+		n := codon.AminoAcid{Letter: aa.Letter}
+		for _, j := range rng.Perm(len(aa.Codons)) {
+			n.Codons = append(n.Codons, aa.Codons[j])
+		}
+		out.AminoAcids = append(out.AminoAcids, n)
+	}
+	return out
+}
+
 func diffCells(obs map[string]int, nom sparse, tol int) []string {
 	var out []string
 	for _, c := range allCodons {
@@ -163,6 +183,12 @@ func c18Record(tier string, seed int64, emit func(interface{})) {
 			return roundtrip(codon.GetCodonTable(id).OptimizeTable(randCoding(rng, m, true)), false)
 		}
 		ta, tb := mk(), mk()
+		switch rng.Intn(4) {
+		case 0:
+			tb = shuffleTable(tb, rng.Int63())
+		case 1:
+			ta = shuffleTable(ta, rng.Int63())
+		}
 		wa, _, _ := projectTable(ta)
 		wb, _, _ := projectTable(tb)
 		cut := []int{-10000, -1, 0, 0, 1, 250, 500, 1000, 1000, 1500, 2500, 5000, 10000, 10001, 20000}[rng.Intn(15)]
